@@ -61,6 +61,7 @@ type State struct {
 	loopM   map[*ssa.BasicBlock]Term
 	loopIn  map[*ssa.BasicBlock]bool
 	writes  int // number of heap writes so far on this path
+	epoch   int // number of whole-heap havocs so far on this path
 	trace   []string
 	run     *FnRun
 }
@@ -77,6 +78,7 @@ func (st *State) clone() *State {
 		loopM:   make(map[*ssa.BasicBlock]Term, len(st.loopM)),
 		loopIn:  make(map[*ssa.BasicBlock]bool, len(st.loopIn)),
 		writes:  st.writes,
+		epoch:   st.epoch,
 		trace:   st.trace[:len(st.trace):len(st.trace)],
 		run:     st.run,
 	}
